@@ -61,6 +61,27 @@ Theorem C14net_counters_only_grow :
 Proof. exact fire_event_counters_grow. Qed.
 Print Assumptions C14net_counters_only_grow.
 
+(* the completion event that becomes awaited carries the identifier that is announced *)
+Theorem C14net_service_start_awaits_its_identifier :
+  forall tasks env f ai s u s',
+    on_service_started tasks env (S f) ai s = Ok (u, s') ->
+    exists u1 s1 id,
+      oss_prefix tasks ai s = Ok (u1, s1) /\ uuid_at ai s1 = Some id /\
+      notify_user tasks env f SS ai false (s1 <| ns_awaited := ns_awaited s1 ++ [EvFinish id] |>) = Ok (u, s').
+Proof. exact service_start_awaits_its_identifier. Qed.
+Print Assumptions C14net_service_start_awaits_its_identifier.
+
+Theorem C14net_service_start_awaits_counter :
+  forall tasks env f ai s u s',
+    ns_test_ids s = true ->
+    on_service_started tasks env (S f) ai s = Ok (u, s') ->
+    exists u1 s1,
+      oss_prefix tasks ai s = Ok (u1, s1) /\
+      notify_user tasks env f SS ai false
+                  (s1 <| ns_awaited := ns_awaited s1 ++ [EvFinish (ITest (ns_sid s))] |>) = Ok (u, s').
+Proof. exact service_start_awaits_counter. Qed.
+Print Assumptions C14net_service_start_awaits_counter.
+
 (* ---- the mechanism: every function of the mutual block ---- *)
 Theorem C14net_block :
   forall tasks env f,
